@@ -362,7 +362,7 @@ namespace vh
     static void assume_lt(const vsym::SymReal& a, const vsym::SymReal& b) { vsym::assume_lt(a, b); }
     static void assume_ne(const vsym::SymReal& a, const vsym::SymReal& b) { vsym::assume_ne(a, b); }
     static double sh(const vsym::SymReal& a) { return a.sh; }
-    static bool want(const std::string&) { return true; }
+    static bool want(const std::string& n) { static const char* only = std::getenv("VH_ONLY_CASE"); return only == nullptr || n == only; }
   };
   struct Replay
   {
